@@ -98,6 +98,8 @@ pub const DEVIATIONS: &[Dev] = &[
         b.rename = Some("stamped-on".into());
         rect_fields(f).push(b);
     }),
+    // one file per crate: backends derive package / module lines from the crate name
+    ("multi-file-mode", |_, c| c.multi_file = true),
     ("field-dashed-rename", |f, _| fields(f, "Person")[0].rename = Some("full-name".into())),
     ("variant-field-dashed-rename", |f, _| rect_fields(f)[0].rename = Some("the-width".into())),
     ("unit-variant-dashed-rename", |f, _| variants(f, "Color")[0].rename = Some("dark-red".into())),
@@ -159,6 +161,12 @@ pub const DEVIATIONS: &[Dev] = &[
     ("field-underscore-digit-names", |f, _| {
         fields(f, "Person").push(Field::new("_1", Ty::Prim("u32")));
         rect_fields(f).push(Field::new("_2nd", Ty::Prim("bool")));
+    }),
+    // … under a rule that drops the underscore, so that the serde key itself starts with a digit
+    ("field-underscore-digit-names-camel-case", |f, _| {
+        fields(f, "Person").push(Field::new("_1", Ty::Prim("u32")));
+        fields(f, "Person").push(Field::new("_2fa", Ty::Prim("bool")));
+        item(f, "Person").rename_all = Some("camelCase".into());
     }),
     ("type-keyword-names", |f, _| {
         f.items.push(Item::strukt("Protocol", vec![Field::new("x", Ty::Prim("u32"))]));
@@ -366,7 +374,8 @@ pub fn check(devs: &[usize], lang: Lang, choices: &[u32], acc: &mut Acc) {
     if !devs.is_empty() {
         acc.nontrivial.insert(report::fnv64(&format!("{names:?}|{}", lang.name())));
     }
-    let o = pipeline::run(&[SrcFile::single(source.clone())], lang, &cfg);
+    let src_file = if cfg.multi_file { SrcFile { crate_name: "app_core".into(), path: "ws/app-core/src/lib.rs".into(), source: source.clone() } } else { SrcFile::single(source.clone()) };
+    let o = pipeline::run(&[src_file], lang, &cfg);
     let text = match &o {
         Outcome::Ok(m) => m.values().next().cloned().unwrap_or_default(),
         Outcome::Panic(m) => {
